@@ -5,6 +5,7 @@
 import Lean.Data.Json
 import Driver.Util
 import Driver.C18
+import Driver.C19
 import Driver.C20
 import Driver.C01
 import Driver.C02
@@ -24,6 +25,7 @@ def handle (j : Json) : Json :=
   match j.getObjValAs? String "p" with
   | .ok "ping" => Json.mkObj [("pong", true)]
   | .ok "C18" => C18.handle j
+  | .ok "C19" => C19.handle j
   | .ok "C20" => C20.handle j
   | .ok "C01" => C01.handle j
   | .ok "C02" => C02.handle j
